@@ -3,6 +3,7 @@ import itertools
 
 import numpy as np
 
+import classes as C
 import proto
 from common import rel, dyadic
 
@@ -10,17 +11,45 @@ TRUSTED_BASE = [
     "numpy.fft.fftshift / ifftshift are modelled by their index rule (rotation by floor(n/2))",
     "exact mode: PSD vectors are basis vectors and small dyadic rationals; the model computes in exact rationals; "
     "agreement required to rtol 1e-13",
+    "estimator objects ('est' histories): the PSD an estimator computes is taken from a FRESH object of the same class / "
+    "data / NFFT / sampling (the property quantifies over stored PSDs, not over how they are estimated); the conversions "
+    "of that PSD are specified by spec_S / spec_rep / spec_freqs of this file and by the model in double precision",
+    "arma2psd(sides='centerdc'): the model's two-sided arma2psd (double precision, rtol 1e-9 as in C08) re-indexed by the "
+    "centre-DC index rule of this file; the oracle evaluates rho/T |B(f)|^2/|A(f)|^2 directly at the centre-DC axis",
 ]
 PARTIAL = []
 ASSUMPTIONS = ["tools.twosided_2_onesided is specified for symmetric two-sided input (the two-sided PSD of real data); on other "
                "vectors only the model/implementation correspondence is checked",
                "a stored one-sided PSD has NFFT/2+1 (NFFT even) or (NFFT+1)/2 (NFFT odd) values; a stored PSD of complex "
                "data is two-sided with NFFT values (what the estimators store)",
-               "tools.onesided_2_twosided has no NFFT argument and is specified for an even two-sided length 2(L-1), L >= 2"]
+               "tools.onesided_2_twosided has no NFFT argument and is specified for an even two-sided length 2(L-1), L >= 2",
+               "complex data has no one-sided form: a one-sided target on a complex object with a stored PSD is rejected "
+               "(AssertionError) and must leave sides and psd untouched (the rest of the history is then checked as if the "
+               "rejected operation were absent); on a complex object that has NO stored PSD yet `sides = 'onesided'` is "
+               "accepted until the first read resets it (recorded quirk, not generated)",
+               "a `sides` assignment made before the first computation of an estimator is not a conversion of a stored PSD: "
+               "only a following get_converted_psd is checked (against the PSD of a fresh object), not the psd attribute",
+               "only the three names of the statement are passed as `sides` argument: get_converted_psd('default') / "
+               "('bogus') return the two-sided vector silently and frequencies('default') returns None (not asserted)",
+               "'total power' of the statement is the sum of the PSD values; Spectrum.power() is the library's own quantity "
+               "(sum * len(psd) without scale_by_freq, so it differs between one- and two-sided forms) and is not asserted",
+               "arma2psd accepts sides in {'default', 'centerdc'} only (anything else raises AssertionError): only these two "
+               "are generated; cshift offsets are ints or floats (floats truncate toward zero, as documented)"]
 RULE = ("Spectrum objects with a stored PSD: real/complex x NFFT 1..33 (quick: 1..20) x every history of up to 4 "
         "operations over {sides = one|two|center|default, get_converted_psd(one|two|center)} (exhaustive to length 2 in "
-        "quick, sampled beyond; exhaustive to length 3 in thorough) x basis vectors and random vectors; tools helpers on "
-        "random vectors of every length; non-trivial = NFFT >= 3 and at least one real conversion in the history")
+        "quick, sampled beyond; exhaustive to length 3 in thorough) x basis vectors and random vectors (stored as float / "
+        "int64 arrays and Python lists); every complex history of length <= 2 that contains the rejected one-sided target; "
+        "estimator objects (Periodogram, pburg, pcorrelogram, pmusic, MultiTapering plus two seed-dependent other classes in "
+        "quick, all fourteen in thorough) x real/complex data x N 24|25 x NFFT None|nextpow2|32|33|40|41 x sampling 1|8000 x "
+        "{all length-2 histories on a current PSD, set a / data or NFFT change / get|set b, set a before the first "
+        "computation / get b} (a seed-dependent 1/6 of them, 1/12 for the two other classes, in quick; 1/2 resp. 1/8 per "
+        "round in thorough); tools helpers and cshift on random vectors of every length (arrays, lists, tuples, integers); "
+        "arma2psd(sides='centerdc') for NFFT 4..101 (..256 in thorough) x real/complex/absent A, B x norm; "
+        "non-trivial = NFFT >= 3 and at least one real conversion in the history")
+
+# "est" cases carry the data record as `x`: amplitude and strided variants are derived by the runner; the degenerate
+# variants (dominant DC / Nyquist tone, zero ends) say nothing about conversions and may leave an estimator's domain
+NO_DEGEN = {"est"}
 
 SIDES = ["onesided", "twosided", "centerdc"]
 
@@ -28,11 +57,19 @@ SIDES = ["onesided", "twosided", "centerdc"]
 _FS = {"fs": 1.0}
 
 
-def _make(cplx, nfft, vals, nd=None):
+def _make(cplx, nfft, vals, nd=None, store=None):
     from spectrum import Spectrum
     data = np.arange(1, (nd or nfft) + 1).astype(complex if cplx else float)
     s = Spectrum(data, NFFT=nfft, sampling=_FS["fs"], scale_by_freq=False)
-    s.psd = np.array(vals, dtype=float)
+    # the container handed to the psd setter: float64 array (default), Python list of floats / of ints, int64 array
+    if store == "list":
+        s.psd = [float(v) for v in vals]
+    elif store == "intlist":
+        s.psd = [int(v) for v in vals]
+    elif store == "int64":
+        s.psd = np.array([int(v) for v in vals], dtype=np.int64)
+    else:
+        s.psd = np.array(vals, dtype=float)
     return s
 
 
@@ -90,7 +127,53 @@ def spec_freqs(side, n, fs=1.0):
 
 # ---- histories -------------------------------------------------------------------------------------
 
-def run_hist(p):
+def _bytes(a):
+    a = np.asarray(a)
+    return (a.dtype.str, a.shape, a.tobytes())
+
+
+def _step(s, op, side, cplx, notes, tag, current=True):
+    """one set / get on the object; returns the exposed vector (stored psd after an assignment, returned vector of a get).
+    With `notes` (a list) the aliasing / no-side-effect clauses are evaluated, and an AssertionError of a one-sided target on
+    complex data is tolerated: the operation must then have left sides and psd untouched, None is returned.
+    current=False: the stored PSD is known to be out of date (reading it beforehand would change the scenario)."""
+    before = sides0 = None
+    if notes is not None and current:
+        sides0 = s.sides
+        before = _bytes(s.psd)
+    try:
+        if op == "set":
+            s.sides = side
+            r = s.psd
+        else:
+            r = s.get_converted_psd(side)
+    except AssertionError:
+        if notes is None or not (cplx and side == "onesided"):
+            raise
+        if before is not None and (s.sides != sides0 or _bytes(s.psd) != before):
+            notes.append("rejected one-sided target on complex data changed the object: sides %s -> %s, psd %s (%s)" % (
+                sides0, s.sides, "changed" if _bytes(s.psd) != before else "unchanged", tag))
+        return None
+    if notes is not None:
+        # the vector is as long as the axis the object itself reports for these sides, at this moment
+        sd = s._default_sides() if side == "default" else side
+        fa = s.frequencies(sd)
+        if fa is None or len(fa) != len(r):
+            notes.append("length %d != len(frequencies('%s')) = %s on the object (%s)" % (
+                len(r), sd, None if fa is None else len(fa), tag))
+    if notes is not None and op == "get":
+        # a get never changes the object; a genuine conversion returns new memory (writing into the returned vector must
+        # not reach the stored PSD); asking for the current sides hands out the stored array itself (not asserted)
+        if before is not None and (s.sides != sides0 or _bytes(s.psd) != before):
+            notes.append("get_converted_psd('%s') changed the object: sides %s -> %s, stored psd %s (%s)" % (
+                side, sides0, s.sides, "changed" if _bytes(s.psd) != before else "bit-identical", tag))
+        if side != s.sides and isinstance(r, np.ndarray) and np.shares_memory(r, s.psd):
+            notes.append("get_converted_psd('%s') on a '%s' object returns memory shared with the stored psd (%s)" % (
+                side, s.sides, tag))
+    return np.array(r, dtype=float)
+
+
+def run_hist(p, notes=None):
     """returns the vector exposed by each op (stored psd after an assignment, returned vector of a get)"""
     _FS["fs"] = p.get("fs", 1.0)
     try:
@@ -99,16 +182,13 @@ def run_hist(p):
         nfft = p["nfft"]
         h = (len(p["ops"]) + nfft + int(round(float(np.sum(np.asarray(p["vals"])) * 8)))) % 6
         nd = nfft if h < 3 or nfft < 2 else (nfft - 1 if h < 5 or nfft < 4 else nfft - 3)
-        s = _make(p["cplx"], nfft, p["vals"], nd)
+        s = _make(p["cplx"], nfft, p["vals"], nd, p.get("store"))
     finally:
         _FS["fs"] = 1.0
     outs = []
     for op, side in p["ops"]:
-        if op == "set":
-            s.sides = side
-            outs.append(np.array(s.psd, dtype=float))
-        else:
-            outs.append(np.array(s.get_converted_psd(side), dtype=float))
+        outs.append(_step(s, op, side, p["cplx"], notes, "%s NFFT=%d history %s at %s:%s" % (
+            "complex" if p["cplx"] else "real", nfft, p["ops"], op, side)))
     return s, outs
 
 
@@ -122,25 +202,18 @@ def model_hist(p):
     return ("Q", proto.request("convhist", "Q", [1 if p["cplx"] else 0, p["nfft"], dflt] + toks, [p["vals"]]))
 
 
-def oracle_hist(p):
-    cplx, nfft = p["cplx"], p["nfft"]
-    S = spec_S(cplx, nfft, p["vals"])
-    total = float(np.sum(S))
+def _check_exposed(ops, outs, cplx, S_of, n_of, fs, who, floor=1.0):
+    """every exposed vector is the representation (for its sides) of the two-sided spectrum S stored at that moment"""
     out = []
-    try:
-        s, outs = run_hist(p)
-    except AssertionError:
-        # complex data cannot be made one-sided: the only admissible assertion
-        if cplx and any(sd == "onesided" for _, sd in p["ops"]):
-            return []
-        return ["conversion history %s raised AssertionError (real=%s NFFT=%d)" % (p["ops"], not cplx, nfft)]
-    except Exception as e:
-        return ["conversion history %s raised %r (%s NFFT=%d)" % (p["ops"], e, "complex" if cplx else "real", nfft)]
-    for (op, side), got in zip(p["ops"], outs):
+    for i, ((op, side), got) in enumerate(zip(ops, outs)):
+        if got is None:          # rejected operation (state checked in _step) or an operation that exposes nothing
+            continue
+        S, nfft = S_of(i), n_of(i)
+        total = float(np.sum(S))
         sd = _default(cplx) if side == "default" else side
         exp = spec_rep(sd, S)
-        fr = spec_freqs(sd, nfft, p.get("fs", 1.0))
-        tag = "%s NFFT=%d history %s at %s:%s" % ("complex" if cplx else "real", nfft, p["ops"], op, side)
+        fr = spec_freqs(sd, nfft, fs)
+        tag = "%s NFFT=%d history %s at %s:%s" % (who, nfft, ops, op, side)
         if len(got) != len(fr):
             out.append("length %d != len(frequencies('%s')) = %d (%s)" % (len(got), sd, len(fr), tag))
             break
@@ -148,24 +221,52 @@ def oracle_hist(p):
             out.append("values not carried to their frequencies / path dependent: got %s expected %s (%s)" % (
                 np.round(got, 4).tolist()[:10], np.round(exp, 4).tolist()[:10], tag))
             break
-        if abs(float(np.sum(got)) - total) > 1e-12 * max(abs(total), 1.0):
+        # "total power" of the statement = the sum of the PSD values.  (Spectrum.power() is the library's own quantity:
+        # sum(psd) * len(psd) when scale_by_freq is False -- the docstring says N * sum --, e.g. 4.49 one-sided against
+        # 7.98 two-sided for the same spectrum; it is not invariant under conversions and not what the property names.)
+        if abs(float(np.sum(got)) - total) > 1e-12 * max(abs(total), floor):
             out.append("total power changed: %.6g -> %.6g (%s)" % (total, float(np.sum(got)), tag))
             break
+    return out
+
+
+def _check_axes(s, cplx, nfft, fs, ops):
+    out = []
+    # the object's own frequencies() for its final sides matches the PSD length and the specified axis
+    f = np.asarray(s.frequencies())
+    if len(f) != len(s.psd):
+        out.append("len(frequencies()) = %d but len(psd) = %d after %s" % (len(f), len(s.psd), ops))
+    elif rel(f, spec_freqs(s.sides, nfft, fs)) > 1e-12:
+        out.append("frequencies('%s') is not the specified axis for NFFT=%d: %s" % (s.sides, nfft, np.round(f, 4).tolist()[:8]))
+    # every axis the object can report, whatever its current sides, is the specified one ("length = its frequency axis")
+    # (only the three names of the statement: frequencies('default') returns None and get_converted_psd('default') /
+    #  ('bogus') silently return the two-sided vector -- outside the statement, not asserted)
+    for sd in (["twosided", "centerdc"] if cplx else ["onesided", "twosided", "centerdc"]):
+        fa = np.asarray(s.frequencies(sd))
+        fx = spec_freqs(sd, nfft, fs)
+        if len(fa) != len(fx) or rel(fa, fx) > 1e-12:
+            out.append("frequencies('%s') has %d entries, the %s representation has %d (NFFT=%d sampling=%s)" % (
+                sd, len(fa), sd, len(fx), nfft, fs))
+            break
+    return out
+
+
+def oracle_hist(p):
+    cplx, nfft = p["cplx"], p["nfft"]
+    S = spec_S(cplx, nfft, p["vals"])
+    out = []
+    notes = []
+    try:
+        s, outs = run_hist(p, notes)
+    except AssertionError:
+        # (complex data cannot be made one-sided: that assertion is tolerated inside run_hist, operation by operation)
+        return ["conversion history %s raised AssertionError (real=%s NFFT=%d)" % (p["ops"], not cplx, nfft)]
+    except Exception as e:
+        return ["conversion history %s raised %r (%s NFFT=%d)" % (p["ops"], e, "complex" if cplx else "real", nfft)]
+    out += notes
+    out += _check_exposed(p["ops"], outs, cplx, lambda i: S, lambda i: nfft, p.get("fs", 1.0), "complex" if cplx else "real")
     if not out:
-        # the object's own frequencies() for its final sides matches the PSD length and the specified axis
-        f = np.asarray(s.frequencies())
-        if len(f) != len(s.psd):
-            out.append("len(frequencies()) = %d but len(psd) = %d after %s" % (len(f), len(s.psd), p["ops"]))
-        elif rel(f, spec_freqs(s.sides, nfft, p.get("fs", 1.0))) > 1e-12:
-            out.append("frequencies('%s') is not the specified axis for NFFT=%d: %s" % (s.sides, nfft, np.round(f, 4).tolist()[:8]))
-        # every axis the object can report, whatever its current sides, is the specified one ("length = its frequency axis")
-        for sd in (["twosided", "centerdc"] if cplx else ["onesided", "twosided", "centerdc"]):
-            fa = np.asarray(s.frequencies(sd))
-            fx = spec_freqs(sd, nfft, p.get("fs", 1.0))
-            if len(fa) != len(fx) or rel(fa, fx) > 1e-12:
-                out.append("frequencies('%s') has %d entries, the %s representation has %d (NFFT=%d sampling=%s)" % (
-                    sd, len(fa), sd, len(fx), nfft, p.get("fs", 1.0)))
-                break
+        out += _check_axes(s, cplx, nfft, p.get("fs", 1.0), p["ops"])
         # returning to the original sides restores the original values exactly
         s.sides = "default"
         back = np.asarray(s.psd, dtype=float)
@@ -176,22 +277,171 @@ def oracle_hist(p):
     return out
 
 
+# ---- histories on estimator objects ----------------------------------------------------------------
+
+_FRESH = {}
+
+
+def _x2(x):
+    """the second data record of a history (same length and type, different spectrum)"""
+    x = np.asarray(x)
+    return x[::-1] * 1.5 + 0.25 * x
+
+
+def _fresh(cls, x, nfft, fs):
+    """the PSD (default sides) a fresh estimator object computes for this configuration, and the resolved NFFT"""
+    x = np.ascontiguousarray(x)
+    key = (cls, x.dtype.str, x.tobytes(), str(nfft), float(fs))
+    if key not in _FRESH:
+        if len(_FRESH) > 64:
+            _FRESH.clear()
+        q = C.make(cls, x, nfft, fs, False)
+        v = np.array(q.psd, dtype=float)
+        _FRESH[key] = (v, int(q.NFFT))
+    v, n = _FRESH[key]
+    return v.copy(), n
+
+
+def _est_configs(p):
+    """(data, NFFT argument) in force at each op of the history"""
+    x, nf = np.asarray(p["x"]), p["nfft"]
+    cfgs = []
+    for op, arg in p["ops"]:
+        if op == "data":
+            x = _x2(x)
+        elif op == "nfft":
+            nf = arg
+        cfgs.append((x, nf))
+    return cfgs
+
+
+def run_est(p, notes=None):
+    """the exposed vector of each op (None for data / NFFT changes and for a sides assignment made before the first
+    computation, which exposes nothing: reading psd there would compute it)"""
+    x = np.asarray(p["x"])
+    cplx = np.iscomplexobj(x)
+    s = C.make(p["cls"], x, p["nfft"], p.get("fs", 1.0), False)
+    computed = bool(p.get("warm", True))
+    if computed:
+        s.psd
+    current = computed
+    outs = []
+    for op, arg in p["ops"]:
+        if op == "data":
+            x = _x2(x)
+            s.data = x
+            current = False
+            outs.append(None)
+        elif op == "nfft":
+            s.NFFT = arg
+            current = False
+            outs.append(None)
+        elif op == "set" and not computed:
+            s.sides = arg
+            outs.append(None)
+        else:
+            outs.append(_step(s, op, arg, cplx, notes, "%s %s NFFT=%s history %s at %s:%s" % (
+                p["cls"], "complex" if cplx else "real", p["nfft"], p["ops"], op, arg), current=current))
+            computed = current = True
+    return s, outs
+
+
+def _est_tail(p):
+    """index of the first op whose exposed vector only depends on the final configuration (after the last data / NFFT
+    change; after the assignments that precede the first computation)"""
+    ops = p["ops"]
+    start = 0
+    for i, (op, _) in enumerate(ops):
+        if op in ("data", "nfft"):
+            start = i + 1
+    if not p.get("warm", True) and start == 0:
+        while start < len(ops) and ops[start][0] == "set":
+            start += 1
+    return start
+
+
+def impl_est(p):
+    outs = run_est(p)[1]
+    return [o for o in outs[_est_tail(p):] if o is not None]
+
+
+def model_est(p):
+    # a recomputation stores the default sides: the model runs the operations that follow it on the fresh object's PSD
+    x = np.asarray(p["x"])
+    cplx = np.iscomplexobj(x)
+    dflt = _default(cplx)
+    t = _est_tail(p)
+    xc, nf = _est_configs(p)[t - 1] if t > 0 else (x, p["nfft"])
+    vals, n = _fresh(p["cls"], xc, nf, p.get("fs", 1.0))
+    toks = ["%s:%s" % (op, dflt if side == "default" else side) for op, side in p["ops"][t:]]
+    return ("F", proto.request("convhist", "F", [1 if cplx else 0, n, dflt] + toks, [vals]))
+
+
+def oracle_est(p):
+    x = np.asarray(p["x"])
+    cplx = np.iscomplexobj(x)
+    fs = p.get("fs", 1.0)
+    who = "%s(%s N=%d NFFT=%s sampling=%s%s)" % (p["cls"], "complex" if cplx else "real", len(x), p["nfft"], fs,
+                                                 "" if p.get("warm", True) else ", nothing computed yet")
+    cfgs = _est_configs(p)
+    fresh = [_fresh(p["cls"], xc, nf, fs) for xc, nf in cfgs] if cfgs else []
+    notes = []
+    try:
+        s, outs = run_est(p, notes)
+    except Exception as e:
+        return ["conversion history %s on %s raised %r" % (p["ops"], who, e)]
+    out = list(notes)
+    out += _check_exposed(p["ops"], outs, cplx, lambda i: spec_S(cplx, fresh[i][1], fresh[i][0]), lambda i: fresh[i][1], fs, who,
+                          floor=0.0)
+    if not out:
+        v, n = fresh[-1] if fresh else _fresh(p["cls"], x, p["nfft"], fs)
+        out += _check_axes(s, cplx, n, fs, p["ops"])
+        for sd in (SIDES[1:] if cplx else SIDES):
+            r = np.asarray(s.get_converted_psd(sd))
+            if len(r) != len(s.frequencies(sd)):
+                out.append("len(get_converted_psd('%s')) = %d but len(frequencies('%s')) = %d after %s on %s" % (
+                    sd, len(r), sd, len(s.frequencies(sd)), p["ops"], who))
+        # returning to the original sides restores the original values exactly
+        s.sides = "default"
+        back = np.asarray(s.psd)
+        if s.sides != _default(cplx) or back.shape != v.shape or not np.array_equal(back, v):
+            out.append("returning to the default sides does not restore the computed PSD exactly after %s on %s (max rel. "
+                       "difference %.3g)" % (p["ops"], who, rel(back, v)))
+    return out
+
+
 # ---- tools helpers ---------------------------------------------------------------------------------
+
+def _as_input(x, form):
+    """the container handed to a tools helper: the array itself (float64 / int64 / complex128), a Python list or a tuple
+    of Python numbers (the docstring examples pass lists of ints)"""
+    x = np.asarray(x)
+    if form in ("list", "tuple"):
+        v = [int(t) for t in x] if x.dtype.kind == "i" else ([complex(t) for t in x] if x.dtype.kind == "c" else [float(t) for t in x])
+        return v if form == "list" else tuple(v)
+    return np.array(x)
+
+
+def _untouched(arg, x):
+    if isinstance(arg, np.ndarray):
+        return np.array_equal(arg, np.asarray(x)) and arg.dtype == np.asarray(x).dtype
+    return type(arg)(_as_input(x, "list")) == arg
+
 
 def impl_helper(p):
     from spectrum import tools
     f = {"t2o": tools.twosided_2_onesided, "o2t": tools.onesided_2_twosided,
          "t2c": tools.twosided_2_centerdc, "c2t": tools.centerdc_2_twosided}[p["fn"]]
-    x = np.array(p["x"], dtype=float)
-    x0 = x.copy()
-    r = np.array(f(x), dtype=float)
-    if not np.array_equal(x, x0):
+    x = np.array(p["x"]) if np.asarray(p["x"]).dtype.kind == "i" else np.array(p["x"], dtype=float)
+    arg = _as_input(x, p.get("as"))
+    r = np.array(f(arg), dtype=float)
+    if not _untouched(arg, x):
         raise RuntimeError("helper modified its argument in place")
     return [r]
 
 
 def model_helper(p):
-    return ("Q", proto.request(p["fn"], "Q", [], [p["x"]]))
+    return ("Q", proto.request(p["fn"], "Q", [], [np.asarray(p["x"], dtype=float)]))
 
 
 def oracle_helper(p):
@@ -200,7 +450,7 @@ def oracle_helper(p):
     try:
         got = impl_helper(p)[0]
     except Exception as e:
-        return ["tools helper %s raised %r on a vector of length %d" % (p["fn"], e, n)]
+        return ["tools helper %s raised %r on a %s of length %d" % (p["fn"], e, p.get("as") or "vector", n)]
     if p["fn"] == "t2o":
         # specified for the (symmetric) two-sided PSD of real data; other vectors: correspondence only
         if not all(x[k] == x[(n - k) % n] for k in range(n)):
@@ -218,22 +468,168 @@ def oracle_helper(p):
     return []
 
 
+# ---- tools.cshift ----------------------------------------------------------------------------------
+
+def impl_cshift(p):
+    from spectrum import tools
+    x = np.array(p["x"])
+    arg = _as_input(x, p.get("as"))
+    r = np.array(tools.cshift(arg, p["k"]))
+    if not _untouched(arg, x):
+        raise RuntimeError("cshift modified its argument in place")
+    return [r]
+
+
+def model_cshift(p):
+    # the model takes a natural offset: a circular shift by k is the shift by k mod n (k truncated toward zero first)
+    n = len(p["x"])
+    return ("Q", proto.request("cshift", "Q", [int(p["k"]) % n], [np.asarray(p["x"])]))
+
+
+def oracle_cshift(p):
+    from spectrum import tools
+    x = np.asarray(p["x"])
+    n = len(x)
+    k = p["k"]
+    ki = int(k)                     # "circular shift to the right by a given offset"; a float offset is truncated
+    try:
+        got = impl_cshift(p)[0]
+    except Exception as e:
+        return ["cshift(%s of %d values, %r) raised %r" % (p.get("as") or "array", n, k, e)]
+    out = []
+    exp = np.array([x[(i - ki) % n] for i in range(n)])
+    if got.shape != exp.shape or not np.array_equal(got, exp):
+        out.append("cshift(x, %r) on %d values is not the circular right shift by %d: %s expected %s" % (
+            k, n, ki, got.tolist()[:10], exp.tolist()[:10]))
+    if not np.array_equal(exp, np.roll(x, ki)):
+        out.append("harness: index rule and numpy.roll differ")
+    # the two centre-DC conversions are the shifts by +floor(n/2) and -floor(n/2)
+    if ki == n // 2:
+        t = np.asarray(tools.twosided_2_centerdc(_as_input(x, p.get("as"))))
+        if t.shape != got.shape or not np.array_equal(t, got) or not np.array_equal(got, spec_rep("centerdc", x)):
+            out.append("cshift(x, %r) != twosided_2_centerdc(x) for %d values: %s vs %s" % (k, n, got.tolist()[:10], t.tolist()[:10]))
+    if ki == -(n // 2):
+        t = np.asarray(tools.centerdc_2_twosided(_as_input(x, p.get("as"))))
+        back = np.array([x[(i + n // 2) % n] for i in range(n)])
+        if t.shape != got.shape or not np.array_equal(t, got) or not np.array_equal(got, back):
+            out.append("cshift(x, %r) != centerdc_2_twosided(x) for %d values: %s vs %s" % (k, n, got.tolist()[:10], t.tolist()[:10]))
+    return out
+
+
+# ---- arma2psd(sides='centerdc') --------------------------------------------------------------------
+
+def _arma_call(p, sides):
+    from spectrum import arma2psd
+    A = None if p["A"] is None else np.array(p["A"])
+    B = None if p["B"] is None else np.array(p["B"])
+    return np.asarray(arma2psd(A=A, B=B, rho=p["rho"], T=p["T"], NFFT=p["nfft"], sides=sides, norm=p["norm"]))
+
+
+def _center(d):
+    n = len(d)
+    return np.array([d[(a - n // 2) % n] for a in range(n)])
+
+
+def impl_armac(p):
+    return [_arma_call(p, "centerdc")]
+
+
+def model_armac(p):
+    A, B = p["A"], p["B"]
+    return ("F", proto.request("arma2psd", "F", [p["nfft"], 0 if A is None else 1, 0 if B is None else 1],
+                               [np.asarray(A, dtype=complex) if A is not None else [],
+                                np.asarray(B, dtype=complex) if B is not None else [], [float(p["rho"])], [float(p["T"])]]))
+
+
+def post_armac(p, iv, mv):
+    # the model command returns the two-sided PSD: the centre-DC form is its re-indexing (and norm divides by the maximum)
+    m = _center(np.asarray(mv[0]))
+    if p["norm"]:
+        m = m / np.max(m.real)
+    return iv, [m]
+
+
+def oracle_armac(p):
+    n = p["nfft"]
+    try:
+        c = _arma_call(p, "centerdc")
+        d = _arma_call(p, "default")
+    except Exception as e:
+        return ["arma2psd(NFFT=%d, norm=%s, sides=...) raised %r" % (n, p["norm"], e)]
+    out = []
+    tag = "NFFT=%d norm=%s A=%s B=%s" % (n, p["norm"], None if p["A"] is None else np.asarray(p["A"]).dtype.kind + str(len(p["A"])),
+                                        None if p["B"] is None else np.asarray(p["B"]).dtype.kind + str(len(p["B"])))
+    if c.shape != (n,) or d.shape != (n,) or np.iscomplexobj(c):
+        return ["arma2psd(sides='centerdc') returns shape %s dtype %s, the default sides %s (%s)" % (c.shape, c.dtype, d.shape, tag)]
+    # (a) the centre-DC result is the two-sided result carried to the centre-DC axis, value by value
+    if not np.array_equal(c, _center(d)):
+        out.append("arma2psd(sides='centerdc') is not the two-sided result re-indexed by (a - NFFT//2) mod NFFT: %s vs %s (%s)" % (
+            np.round(c, 5).tolist()[:8], np.round(_center(d), 5).tolist()[:8], tag))
+    # (b) each entry is the ARMA spectrum at the frequency the centre-DC axis gives to that entry
+    f = spec_freqs("centerdc", n, 1.0)          # cycles per sample
+    Af = np.ones(n, dtype=complex)
+    Bf = np.ones(n, dtype=complex)
+    if p["A"] is not None:
+        for i, a in enumerate(np.asarray(p["A"])):
+            Af = Af + a * np.exp(-2j * np.pi * f * (i + 1))
+    if p["B"] is not None:
+        for i, b in enumerate(np.asarray(p["B"])):
+            Bf = Bf + b * np.exp(-2j * np.pi * f * (i + 1))
+    ref = p["rho"] / p["T"] * np.abs(Bf) ** 2 / np.abs(Af) ** 2
+    if p["norm"]:
+        ref = ref / np.max(ref)
+    if rel(c, ref) > 1e-9:
+        out.append("arma2psd(sides='centerdc')[a] is not the ARMA spectrum at frequency (a - NFFT//2)/NFFT: rel. error %.3g (%s)" % (
+            rel(c, ref), tag))
+    if abs(float(np.sum(c)) - float(np.sum(d))) > 1e-12 * abs(float(np.sum(d))):
+        out.append("arma2psd: total power differs between the two-sided and the centre-DC result (%s)" % tag)
+    return out
+
+
+def _h(a):
+    return None if a is None else hash(np.ascontiguousarray(a).tobytes()) & 0xFFFFFF
+
+
 def _key(p):
-    return "%s|%s|%s|%s|%s|%d" % (p.get("cplx"), p.get("nfft"), p.get("fs"), p.get("ops"), p.get("fn"),
-                              hash(np.asarray(p.get("vals", p.get("x"))).tobytes()) & 0xFFFFFF)
+    return "%s|%s|%s|%s|%s|%s|%s|%d" % (p.get("cplx"), p.get("nfft"), p.get("fs"), p.get("ops"), p.get("fn"), p.get("store"),
+                                    p.get("as"), hash(np.asarray(p.get("vals", p.get("x"))).tobytes()) & 0xFFFFFF)
+
+
+def _key_est(p):
+    return "%s|%s|%s|%s|%s|%s" % (p["cls"], p["nfft"], p.get("fs"), p.get("warm", True), p["ops"], _h(p["x"]))
 
 
 def _nontrivial_hist(p):
     return p["nfft"] >= 3 and len(p["ops"]) >= 1
 
 
+def _tags_est(p):
+    ops = [o for o, _ in p["ops"]]
+    return ["est:" + p["cls"], "est:" + ("complex" if np.iscomplexobj(p["x"]) else "real"), "est-nfft:%s" % p["nfft"],
+            "est:" + ("data-change" if "data" in ops else "nfft-change" if "nfft" in ops else
+                      "current" if p.get("warm", True) else "before-first-compute")]
+
+
 KINDS = {
     "hist": {"impl": impl_hist, "model": model_hist, "oracle": oracle_hist, "rtol": 1e-13, "atol": 0.0, "key": _key,
              "nontrivial": _nontrivial_hist,
              "tags": lambda p: ["complex" if p["cplx"] else "real", "nfft:" + ("odd" if p["nfft"] % 2 else "even"),
-                                "histlen:%d" % len(p["ops"])]},
+                                "histlen:%d" % len(p["ops"])] + (["store:" + p["store"]] if p.get("store") else [])},
     "helper": {"impl": impl_helper, "model": model_helper, "oracle": oracle_helper, "rtol": 1e-13, "atol": 0.0, "key": _key,
-               "nontrivial": lambda p: len(p["x"]) >= 3, "tags": lambda p: ["helper:" + p["fn"], "len:" + ("odd" if len(p["x"]) % 2 else "even")]},
+               "nontrivial": lambda p: len(p["x"]) >= 3,
+               "tags": lambda p: ["helper:" + p["fn"], "len:" + ("odd" if len(p["x"]) % 2 else "even")] + (
+                   ["helper-input:%s/%s" % (p.get("as") or "array", np.asarray(p["x"]).dtype.kind)]
+                   if p.get("as") or np.asarray(p["x"]).dtype.kind != "f" else [])},
+    "est": {"impl": impl_est, "model": model_est, "oracle": oracle_est, "rtol": 1e-13, "atol": 0.0, "key": _key_est,
+            "tags": _tags_est},
+    "cshift": {"impl": impl_cshift, "model": model_cshift, "oracle": oracle_cshift, "rtol": 1e-13, "atol": 0.0,
+               "key": lambda p: "cshift|%r|%s|%s" % (p["k"], p.get("as"), _h(p["x"])),
+               "nontrivial": lambda p: len(p["x"]) >= 3 and int(p["k"]) % len(p["x"]) != 0,
+               "tags": lambda p: ["cshift:" + ("float" if isinstance(p["k"], float) else "int") + "-offset",
+                                  "cshift:" + (p.get("as") or "array")]},
+    "armac": {"impl": impl_armac, "model": model_armac, "post": post_armac, "oracle": oracle_armac, "rtol": 1e-9, "atol": 1e-300,
+              "key": lambda p: "armac|%d|%s|%s|%s|%s" % (p["nfft"], p["norm"], _h(p["A"]), _h(p["B"]), p["rho"]),
+              "tags": lambda p: ["arma2psd-centerdc:nfft-" + ("odd" if p["nfft"] % 2 else "even"), "arma2psd-centerdc:norm-%s" % p["norm"]]},
 }
 
 
@@ -293,3 +689,144 @@ def gen(rng, nrng, tier):
                 if fn == "t2o":
                     xs = np.array([x[min(k, n - k)] for k in range(n)])
                     yield ("helper", {"fn": fn, "x": xs})
+    # ---- gaps closed after the audit (appended: the streams of the cases above are unchanged) -------------------------
+    # complex data and the one-sided target: every short history that contains it (the operations before the rejected one,
+    # the untouched state after it and the rest of the history are all checked)
+    for nfft in range(1, maxn + 1):
+        for ln in (1, 2, 3):
+            if ln == 3 and (tier == "quick" or nfft > 8):
+                continue
+            for h in itertools.product(ops_all, repeat=ln):
+                if any(sd == "onesided" for _, sd in h):
+                    yield ("hist", {"cplx": True, "nfft": nfft, "vals": _vals(nrng, nfft, 0 if ln < 3 else 2), "ops": list(h)})
+    # the stored PSD handed over as a Python list (of floats / of ints, as range(1, L+1)) or as an int64 array
+    for cplx in (False, True):
+        ops = [o for o in ops_all if not (cplx and o[1] == "onesided")]
+        for nfft in range(1, (12 if tier == "quick" else 25) + 1):
+            L = _L(cplx, nfft)
+            for si, store in enumerate(("list", "intlist", "int64")):
+                for t in ops:
+                    yield ("hist", {"cplx": cplx, "nfft": nfft, "vals": _vals(nrng, L, 0), "store": store, "ops": [t]})
+                for hi, h in enumerate(itertools.product(ops, repeat=2)):
+                    if tier == "quick" and (hi + nfft + si) % 4:
+                        continue
+                    yield ("hist", {"cplx": cplx, "nfft": nfft, "vals": _vals(nrng, L, 0), "store": store, "ops": list(h)})
+            yield ("hist", {"cplx": cplx, "nfft": nfft, "vals": _vals(nrng, L, 2), "store": "list",
+                            "ops": [ops[(nfft + j) % len(ops)] for j in (0, 3, 5)]})
+    for c in _gen_est(nrng, tier):
+        yield c
+    for c in _gen_tools(nrng, tier):
+        yield c
+    for c in _gen_armac(nrng, tier):
+        yield c
+
+
+EST_MAIN = ["Periodogram", "pburg", "pcorrelogram", "pmusic", "MT-unity"]
+EST_NFFT = [None, "nextpow2", 32, 33, 40, 41]
+
+
+def _est_histories(cplx, n0, ci):
+    sides = SIDES[1:] if cplx else SIDES
+    ops_all = [("set", s) for s in SIDES + ["default"]] + [("get", s) for s in SIDES]
+    # (a) a current PSD: every history of length 2 (complex data: including the rejected one-sided targets)
+    H = [(True, [a, b]) for a in ops_all for b in ops_all]
+    # (b) the estimate goes out of date between the assignment and the read; (c) the assignment precedes the first computation
+    alt = [v for v in (32, 33, 40, 41) if v != n0]
+    j = 0
+    for a in sides:
+        for b in sides:
+            for fin in ("get", "set"):
+                H.append((True, [("set", a), ("data", None), (fin, b)]))
+                H.append((True, [("set", a), ("nfft", alt[(j + ci) % len(alt)]), (fin, b)]))
+                j += 1
+            H.append((False, [("set", a), ("get", b)]))
+    return H
+
+
+def _gen_est(nrng, tier):
+    others = [c for c in C.CLASSES if c not in EST_MAIN]
+    r0 = int(nrng.integers(0, len(others)))
+    off = int(nrng.integers(0, 24))
+    if tier == "quick":
+        classes = [(c, 6) for c in EST_MAIN] + [(others[(r0 + 4 * j) % len(others)], 12) for j in range(2)]
+    else:
+        classes = [(c, 2) for c in EST_MAIN] + [(c, 8) for c in others]
+    ci = 0
+    for cls, k in classes:
+        for cplx in (False, True):
+            for N in (24, 25):
+                x = C.test_data(nrng, N, cplx)
+                for nfft in EST_NFFT:
+                    for fs in (1.0, 8000.0):
+                        ci += 1
+                        H = _est_histories(cplx, C.resolved_nfft(x, nfft), ci)
+                        for hi, (warm, ops) in enumerate(H):
+                            if (hi + 5 * ci + off) % k:
+                                continue
+                            yield ("est", {"cls": cls, "x": x, "nfft": nfft, "fs": fs, "warm": warm, "ops": ops})
+
+
+def _sym(x):
+    n = len(x)
+    return np.array([x[min(k, n - k)] for k in range(n)])
+
+
+def _gen_tools(nrng, tier):
+    # the docstring examples (Python lists of ints) and a tuple
+    yield ("helper", {"fn": "t2o", "x": np.array([10, 2, 3, 8, 3, 2], dtype=np.int64), "as": "list"})
+    yield ("helper", {"fn": "o2t", "x": np.array([10, 4, 6, 8], dtype=np.int64), "as": "list"})
+    yield ("helper", {"fn": "t2c", "x": np.array([1, 2, 3, 4], dtype=np.int64), "as": "tuple"})
+    yield ("helper", {"fn": "c2t", "x": np.array([1, 2, 3, 4, 5], dtype=np.int64), "as": "tuple"})
+    yield ("cshift", {"x": np.array([0, 1, 2, 3, -2, -1], dtype=np.int64), "k": 2, "as": "list"})
+    forms = [("list", "f"), ("tuple", "f"), (None, "i"), ("list", "i"), ("tuple", "i")]
+    for n in range(1, (12 if tier == "quick" else 40) + 1):
+        for fn in ("t2o", "t2c", "c2t", "o2t"):
+            if fn == "o2t" and n < 2:
+                continue
+            for fi, (form, kind) in enumerate(forms):
+                x = _vals(nrng, n, 2 * ((n + fi) % 2)) if kind == "f" else nrng.integers(1, 40, n).astype(np.int64)
+                if fn == "t2o":
+                    x = _sym(x)
+                q = {"fn": fn, "x": x}
+                if form:
+                    q["as"] = form
+                yield ("helper", q)
+    # tools.cshift: the circular right shift (numpy.roll), the two centre-DC conversions as shifts by +-floor(n/2), the float
+    # offset len(psd)/2 of the documentation (truncated toward zero), list / integer / complex input
+    for n in range(1, (11 if tier == "quick" else 24) + 1):
+        offs = [0, 1, -1, n // 2, -(n // 2), n, n + 1, -n, n / 2, -(n / 2), float(n // 2)]
+        seen = []
+        for oi, k in enumerate(offs):
+            if any(type(k) is type(s) and k == s for s in seen):
+                continue
+            seen.append(k)
+            j = (n + oi) % 5
+            if j == 3:
+                x = nrng.integers(-9, 10, n).astype(np.int64)
+            elif j == 4:
+                x = dyadic(nrng, n) + 1j * dyadic(nrng, n)
+            else:
+                x = _vals(nrng, n, 2)
+            q = {"x": x, "k": k}
+            if (n + oi // 2) % 3 == 0:
+                q["as"] = "list"
+            yield ("cshift", q)
+
+
+def _gen_armac(nrng, tier):
+    # arma2psd(sides='centerdc') (the only other value it accepts is 'default'); coefficient vectors with sum |a_k| < 1, so
+    # that the spectrum is well conditioned
+    def coef(n, cplx):
+        a = nrng.standard_normal(n) * 0.4 + (1j * nrng.standard_normal(n) * 0.4 if cplx else 0)
+        return a * min(1.0, 0.9 / float(np.sum(np.abs(a))))
+    shapes = [("r", None), (None, "r"), ("r", "r"), ("c", "c"), ("c", None), ("r", "c")]
+    nffts = [4, 5, 7, 8, 9, 16, 17, 33, 64, 101] + ([6, 11, 32, 100, 127, 128, 255, 256] if tier == "thorough" else [])
+    for ni, nfft in enumerate(nffts):
+        for si, (ka, kb) in enumerate(shapes):
+            for norm in (False, True):
+                la = 1 + (ni + si) % 3
+                lb = 1 + (ni + si // 2 + int(norm)) % 3
+                A = None if ka is None else coef(la, ka == "c")
+                B = None if kb is None else coef(lb, kb == "c")
+                yield ("armac", {"A": A, "B": B, "nfft": nfft, "norm": norm, "rho": float(nrng.uniform(0.1, 3)),
+                                 "T": [1.0, 0.5, 8.0][(ni + si) % 3]})
